@@ -278,7 +278,7 @@ def check_object_copy(ctx, m: S.Model, q: Query, result, trigger):
                          f"{m.name}: {len(got_cells)} cells on the copy, {len(kept_cells)} source cells qualify")
                 return
             for j, (gcell, scell) in enumerate(zip(got_cells, kept_cells)):
-                if any(v < 0 or v >= len(got) for v in gcell) or [got[v] for v in gcell] != [m.coords[v] for v in scell]:
+                if any(v < 0 or v >= len(got) for v in gcell) or sorted(got[v] for v in gcell) != sorted(m.coords[v] for v in scell):
                     res.fail(f"C13/cell-coords-differ/copy_from_extent/{cls}/{tag}",
                              f"{m.name}: copied cell {j} {gcell} does not connect the coordinates of source cell {scell}")
                     break
@@ -434,7 +434,7 @@ def check_mask(ctx, m: S.Model, q: Query, info):
 class C13(Check):
     pid = "C13"
     level = "exploration"
-    budgets = {"quick": (420, 16), "thorough": (5200, 16)}
+    budgets = {"quick": (380, 16), "thorough": (4800, 16)}
     rule = (
         "A program = a scene of 1-3 objects (point cloud, curve, surface with arbitrary index tuples as cells, "
         "Grid2D any rotation/dip/negative sizes, BlockModel, Octree with explicit refinement, Drillhole; free, in "
@@ -499,6 +499,17 @@ class C13(Check):
                 if holder is not None:
                     holder.members.append(m)
                 res.label(f"class:{m.cls}")
+                if m.cls == "Grid2D":
+                    if spec["rot"] % 90.0 != 0.0:
+                        res.label("grid2d:oblique-rotation")
+                    if spec["dip"] != 0.0:
+                        res.label("grid2d:dipped")
+                    if spec["du"] < 0 or spec["dv"] < 0:
+                        res.label("grid2d:negative-size")
+                if m.cells is not None and len({v for cell in m.cells for v in cell}) < len(m.coords):
+                    res.label("cells:unreferenced-vertices")
+                for _n, kind, _a, _e in m.data:
+                    res.label(f"data:{kind}")
             if sub is not None:
                 top.members.append(sub)
             if layout == "nested+empty":
@@ -530,6 +541,10 @@ class C13(Check):
                     if info["boundary"]:
                         res.nontrivial = True
                         res.label("element-on-face")
+                    cmin = [min(c[k] for c in m.coords) for k in range(q.dims)]
+                    cmax = [max(c[k] for c in m.coords) for k in range(q.dims)]
+                    if not info["miss"] and any(lo[k] == cmax[k] or hi[k] == cmin[k] for k in range(q.dims)):
+                        res.label("box-touches-bbox-from-outside")
                     if info["miss"]:
                         res.label("box-misses-bbox")
                     elif not any(S.qualify(m.coords, q.lo, q.hi, q.dims, False)):
